@@ -62,6 +62,13 @@ partial def treeP : P (MetaMat Rat) := do
   | "dense" =>
     let rows ← nat; let cols ← nat; let v ← ratList
     pure (.dense { rows := rows, cols := cols, val := v.toArray })
+  | "cscr" =>
+    let rows ← nat; let cols ← nat; let rp ← natList; let ci ← natList; let v ← ratList; let rn ← natList
+    pure (.cscr { rows := rows, cols := cols, rowPtr := rp.toArray, colInd := ci.toArray, val := v.toArray,
+                  rowNumbers := rn.toArray })
+  | "banded" =>
+    let rows ← nat; let cols ← nat; let off ← natList; let v ← ratList
+    pure (.banded { rows := rows, cols := cols, offsets := off.toArray, val := v.toArray })
   | _ => throw s!"bad tree token {t}"
 
 def itP : P Unit := do
@@ -150,16 +157,21 @@ def handle : P String := do
     let t ← tailP
     let _ := ty
     -- the overloads with flat DenseVector operands (op suffix F) act on the same pod arrays as the Tuple/PowerVector ones
-    let op := if op.endsWith "F" then (op.dropRight 1) else op
+    let flat := op.endsWith "F"
+    let op := if flat then (op.dropRight 1) else op
     let tr := op == "applyT" || op == "axpyT"
     let nOut := if tr then M.cols else M.rows
+    -- Tuple/PowerVector operands: the tree model `goSQ` on the unflattened vectors; flat operands: `goQ` with offsets
+    let run := fun (ax : Option Rat) (x y r : Array Rat) (ali : Bool) =>
+      if flat then M.goQ tr ax x y r ali
+      else (M.goSQ tr ax (M.unflatten tr x) (M.unflatten (!tr) y) (M.unflatten (!tr) r) ali).map MetaVec.flatten
     match op with
     | "apply" | "applyT" =>
       let r := Array.replicate nOut sentinel
-      pure (showR (M.goQ tr none t.x r r true))
+      pure (showR (run none t.x r r true))
     | "axpy" | "axpyT" =>
       let r := if t.alias then t.y else Array.replicate nOut sentinel
-      pure (showR (M.goQ tr (some t.alpha) t.x t.y r t.alias))
+      pure (showR (run (some t.alpha) t.x t.y r t.alias))
     | _ => throw s!"unknown op {op}"
   | _ => throw s!"unknown format {fmt}"
 
